@@ -28,6 +28,8 @@ class ModuleInfo:
         self.relpath = relpath
         self.source = source
         self.tree = ast.parse(source, filename=relpath)
+        from .normalise import desugar_with
+        self.cm_classes = desugar_with(self.tree)
         self.imports = {}                # local name -> (module, attr|None)
         self.funcs = {}                  # qualname -> FuncInfo
         self.classes = {}                # name -> ClassInfo
@@ -60,6 +62,10 @@ class FuncInfo:
         self.cls = cls
         self.parent = parent             # enclosing FuncInfo (closures)
         self.relpath = module.relpath
+        # method of a context-manager class whose every use was rewritten
+        # to try/finally (normalise.N1): judged at the use sites
+        self.cm_method = cls is not None and cls.name in getattr(
+            module, 'cm_classes', ())
 
     @property
     def where(self):
